@@ -1,3 +1,7 @@
 package main
 
-func emitFacts(repo, outDir string) int { return 0 }
+func emitFacts(repo, outDir string) int {
+	failed := 0
+	failed += emitEntrypointFacts(repo, outDir) // C15 (facts_entrypoints.go)
+	return failed
+}
